@@ -35,6 +35,22 @@ LEVEL_NOTE = "CPU host-device emulation only; no real accelerator"
 ROOT = os.path.dirname(os.path.dirname(os.path.abspath(__file__)))
 
 
+def _wall_on_sharded_axis_with_partial_plane_source(spec, violation):
+    """Known finding: a PEC/PMC wall on a face of the *sharded* axis (x) together with a plane-type source whose box does not span
+    the whole x extent - with more than one device the fields differ from the single-device run, starting at the shard
+    boundaries (x = N/n, 2N/n, ...).  Either ingredient alone is device-count independent (wall + dipole, wall + full-span plane
+    source, partial plane source without a wall on x, walls on y/z)."""
+    if violation.get("monitor") != "device_count_changes_result":
+        return False
+    faces = spec.get("faces", {})
+    wall_x = any(faces.get(f, {}).get("kind") in ("pec", "pmc") for f in ("min_x", "max_x"))
+    partial = any(s.get("kind") in ("uniform_plane", "gaussian_plane", "mode", "tfsf_region") and list(s["box"][0]) != [0, spec["shape"][0]] for s in spec.get("sources", []))
+    return wall_x and partial
+
+
+KNOWN_PREDICATES = {"wall_on_sharded_axis_with_partial_plane_source": _wall_on_sharded_axis_with_partial_plane_source}
+
+
 def _scene(rng):
     return specgen.rand_scene(rng, T=(6, 14), shape=(6, 12), pml=(2, 3), p_nonuniform=0.3, tiers=("iso", "diag"), sigma_e=True)
 
@@ -116,6 +132,7 @@ def execute(spec):
     d, k = dr.dict_rel_diff({k: v for k, v in outs[-2].items() if not k.startswith("meta/")}, {k: v for k, v in outs[-1].items() if not k.startswith("meta/")})
     resid["repeat_4_devices"] = d
     stats["probe_bitwise_repeat"] = int(d == 0.0)
+    stats["probe_wall_on_x_with_partial_plane_source"] = int(_wall_on_sharded_axis_with_partial_plane_source(spec, {"monitor": "device_count_changes_result"}))
     stats["probe_twin_boxes"] = int(any(o["name"] == "twin0" for o in spec["materials"].get("objects", [])))
     stats["probe_ellipsoid_over_three_shards"] = int(any(o["name"] == "blob" for o in spec["materials"].get("objects", [])))
     sig = specgen.scene_signature(spec)
